@@ -106,4 +106,17 @@ var mslKnownDefects = mslDefects{
 	// which C++ parses as c1 ? v[..] : ((DefaultConstructible() + uint(i)) < 2 ? ... ) - ill-formed
 	// (operator+ on the helper struct is ambiguous), and mis-associated even if it compiled.
 	"vector construction swizzle component write": {"3.1 map rzsw loop-bound": "with a DefaultConstructible operand is ambiguous"},
+	// M6: select(f, t, c) is written "(c) ? t : f" without enclosing parentheses:
+	// "o[0] = (1.0 + (_e6 > 1.0) ? 2.0 : 1.0) + 3.0;" parses as ((1.0 + (c)) ? 2.0 : 1.0) + 3.0
+	// (C++14 [expr.cond]: ?: binds weaker than +), giving 5 instead of 6; likewise
+	// "(c) ? 20.0 : 10.0 * 2.0" multiplies only the last operand.
+	"select as an operand": {"*": "mismatch: buffer [0 0] word 0"},
+	// M7: dot() of signed integer vectors is "( + a.x * b.x + a.y * b.y)" in int arithmetic:
+	// WGSL defines wrap-around, signed overflow is undefined in C++14 [expr]/4 (every other
+	// i32 operation of the backend goes through as_type<uint>).
+	"integer dot product wraps": {"*": "signed integer overflow"},
+	// M8: a storage buffer that the entry point only writes THROUGH A POINTER ARGUMENT is
+	// declared "device type_2 const& es" and then passed to "device E& p": a reference to
+	// non-const cannot bind to a const object (C++14 [dcl.init.ref]/5).
+	"references into storage and workgroup memory": {"*": `"es" is read-only`},
 }
